@@ -9,6 +9,7 @@ import (
 	"github.com/Eyevinn/mp4ff/avc"
 	"pgregory.net/rapid"
 
+	"verif/internal/esgen"
 	"verif/internal/harness"
 	"verif/internal/nalgen"
 )
@@ -18,130 +19,6 @@ type avcPPSCase struct {
 	SPS []nalgen.AVCSPSTree `json:"sps"`
 	PPS []nalgen.AVCPPSTree `json:"pps"`
 	Hex []string            `json:"hex,omitempty"` // informational
-}
-
-type avcPPSOpts struct {
-	ID                 uint32
-	NoChangeCycleTypes bool // the PPS will be used by a slice and avc-slice-group-change-cycle-bits is avoided
-}
-
-// genAVCPPS draws a PPS referring to sps.
-func genAVCPPS(t *rapid.T, o avcPPSOpts, sps *nalgen.AVCSPSTree) nalgen.AVCPPSTree {
-	var tr nalgen.AVCPPSTree
-	p := &tr.P
-	tr.NalRefIdc = uint8(rapid.IntRange(1, 3).Draw(t, "pps-nal_ref_idc"))
-	p.PicParameterSetID = o.ID
-	p.SeqParameterSetID = sps.S.ParameterID
-	p.EntropyCodingModeFlag = rapid.Bool().Draw(t, "entropy_coding_mode_flag")
-	p.BottomFieldPicOrderInFramePresentFlag = rapid.Bool().Draw(t, "bottom_field_pic_order_in_frame_present_flag")
-	picSize := nalgen.AVCPicSizeInMapUnits(sps)
-	picW := uint64(sps.PicWidthInMbsMinus1) + 1
-	if picSize >= 2 && avcChance(t, 2, 5, "slice-groups") {
-		p.NumSliceGroupsMinus1 = uint(rapid.IntRange(1, 7).Draw(t, "num_slice_groups_minus1"))
-		mt := uint(rapid.IntRange(0, 6).Draw(t, "slice_group_map_type"))
-		if mt == 6 && picSize > 300 {
-			mt = uint(rapid.IntRange(0, 5).Draw(t, "slice_group_map_type-small"))
-		}
-		if avcAvoid("avc-pps-slicegroup-type2-extra-pair", mt == 2) {
-			mt = 1
-		}
-		if avcAvoid("avc-pps-slicegroup-type6", mt == 6) {
-			mt = 0
-		}
-		if o.NoChangeCycleTypes && mt >= 3 && mt <= 5 {
-			rate := avcDrawUint(t, 0, picSize-1, "slice_group_change_rate_minus1") + 1
-			libBits := 0
-			if rate == 1 {
-				libBits = 1
-			}
-			if avcAvoid("avc-slice-group-change-cycle-bits", nalgen.AVCSliceGroupChangeCycleBits(picSize, uint64(rate)) != libBits) {
-				mt = 1
-			} else {
-				p.SliceGroupChangeDirectionFlag = rapid.Bool().Draw(t, "slice_group_change_direction_flag")
-				p.SliceGroupChangeRateMinus1 = rate - 1
-			}
-		} else if mt >= 3 && mt <= 5 {
-			p.SliceGroupChangeDirectionFlag = rapid.Bool().Draw(t, "slice_group_change_direction_flag")
-			p.SliceGroupChangeRateMinus1 = avcDrawUint(t, 0, picSize-1, "slice_group_change_rate_minus1")
-		}
-		p.SliceGroupMapType = mt
-		switch mt {
-		case 0:
-			for i := uint(0); i <= p.NumSliceGroupsMinus1; i++ {
-				p.RunLengthMinus1 = append(p.RunLengthMinus1, avcDrawUint(t, 0, picSize-1, "run_length_minus1"))
-			}
-		case 2:
-			picH := picSize / picW
-			for i := uint(0); i < p.NumSliceGroupsMinus1; i++ {
-				x1 := uint64(rapid.IntRange(0, int(picW-1)).Draw(t, "tl-x-max"))
-				x0 := uint64(rapid.IntRange(0, int(x1)).Draw(t, "tl-x"))
-				y1 := uint64(rapid.IntRange(0, int(picH-1)).Draw(t, "br-y"))
-				y0 := uint64(rapid.IntRange(0, int(y1)).Draw(t, "tl-y"))
-				p.TopLeft = append(p.TopLeft, uint(y0*picW+x0))
-				p.BottomRight = append(p.BottomRight, uint(y1*picW+x1))
-			}
-		case 6:
-			p.PicSizeInMapUnitsMinus1 = uint(picSize - 1)
-			for i := uint64(0); i < picSize; i++ {
-				p.SliceGroupID = append(p.SliceGroupID, uint(rapid.IntRange(0, int(p.NumSliceGroupsMinus1)).Draw(t, "slice_group_id")))
-			}
-		}
-	}
-	p.NumRefIdxI0DefaultActiveMinus1 = uint(rapid.SampledFrom([]int{0, 0, 1, 2, 3, 15, 16, 31}).Draw(t, "num_ref_idx_l0_default_active_minus1"))
-	p.NumRefIdxI1DefaultActiveMinus1 = uint(rapid.SampledFrom([]int{0, 0, 1, 2, 3, 15, 16, 31}).Draw(t, "num_ref_idx_l1_default_active_minus1"))
-	p.WeightedPredFlag = rapid.Bool().Draw(t, "weighted_pred_flag")
-	p.WeightedBipredIDC = uint(rapid.IntRange(0, 2).Draw(t, "weighted_bipred_idc"))
-	qpBdOffsetY := 6 * int64(sps.S.BitDepthLumaMinus8)
-	p.PicInitQpMinus26 = int(avcDrawInt(t, -(26 + qpBdOffsetY), 25, "pic_init_qp_minus26"))
-	p.PicInitQsMinus26 = int(avcDrawInt(t, -26, 25, "pic_init_qs_minus26"))
-	p.ChromaQpIndexOffset = int(avcDrawInt(t, -12, 12, "chroma_qp_index_offset"))
-	p.DeblockingFilterControlPresentFlag = rapid.Bool().Draw(t, "deblocking_filter_control_present_flag")
-	p.ConstrainedIntraPredFlag = rapid.Bool().Draw(t, "constrained_intra_pred_flag")
-	p.RedundantPicCntPresentFlag = rapid.Bool().Draw(t, "redundant_pic_cnt_present_flag")
-	tr.TailPresent = avcChance(t, 3, 5, "pps-tail")
-	if tr.TailPresent {
-		p.Transform8x8ModeFlag = rapid.Bool().Draw(t, "transform_8x8_mode_flag")
-		p.PicScalingMatrixPresentFlag = avcChance(t, 1, 3, "pic_scaling_matrix_present_flag")
-		if avcAvoid("avc-pps-scalinglists-without-8x8", p.PicScalingMatrixPresentFlag && !p.Transform8x8ModeFlag) {
-			p.Transform8x8ModeFlag = true
-		}
-		if p.PicScalingMatrixPresentFlag {
-			tr.ScalingLists = genAVCScalingLists(t, nalgen.AVCNumPicScalingLists(avcChromaFormatIDC(&sps.S), p.Transform8x8ModeFlag), false, "pic_scaling_list")
-		}
-		p.SecondChromaQpIndexOffset = int(avcDrawInt(t, -12, 12, "second_chroma_qp_index_offset"))
-	}
-	return tr
-}
-
-// avcChromaFormatIDC is chroma_format_idc, inferred to be 1 when not coded.
-func avcChromaFormatIDC(s *avc.SPS) byte {
-	if !nalgen.AVCHighProfileFields(s.Profile) {
-		return 1
-	}
-	return s.ChromaFormatIDC
-}
-
-func avcPPSClasses(tr *nalgen.AVCPPSTree) []string {
-	p := &tr.P
-	var cl []string
-	if p.NumSliceGroupsMinus1 > 0 {
-		cl = append(cl, fmt.Sprintf("avc-pps-slicegroups-type%d", p.SliceGroupMapType))
-	} else {
-		cl = append(cl, "avc-pps-one-slice-group")
-	}
-	if tr.TailPresent {
-		cl = append(cl, "avc-pps-tail")
-		if p.Transform8x8ModeFlag {
-			cl = append(cl, "avc-pps-transform8x8")
-		}
-		if p.PicScalingMatrixPresentFlag {
-			cl = append(cl, fmt.Sprintf("avc-pps-scaling-lists-%d", len(tr.ScalingLists)))
-		}
-	}
-	if p.PicParameterSetID != p.SeqParameterSetID {
-		cl = append(cl, "avc-pps-id-differs-from-sps-id")
-	}
-	return cl
 }
 
 func avcExpectedPPS(tr *nalgen.AVCPPSTree) avc.PPS {
@@ -204,7 +81,7 @@ func avcParseSets(spsT []nalgen.AVCSPSTree, ppsT []nalgen.AVCPPSTree) (map[uint3
 		if ref == nil {
 			return nil, nil, nil, nil, harness.Failf("harness|bad-case", "pps[%d] refers to sps id %d which is not in the case", i, ppsT[i].P.SeqParameterSetID)
 		}
-		nalu, _ := nalgen.SerializeAVCPPS(&ppsT[i], avcChromaFormatIDC(&ref.S))
+		nalu, _ := nalgen.SerializeAVCPPS(&ppsT[i], esgen.AVCChromaFormatIDC(&ref.S))
 		ppsN = append(ppsN, nalu)
 		ctx := fmt.Sprintf("pps[%d] %x (pps id %d -> sps id %d)", i, nalu, ppsT[i].P.PicParameterSetID, ppsT[i].P.SeqParameterSetID)
 		got, err := avc.ParsePPSNALUnit(nalu, spsMap)
@@ -236,44 +113,16 @@ func checkAVCPPS(c avcPPSCase) *harness.Fail {
 	return f
 }
 
-// avcDistinct draws n distinct ids; small ids are frequent so that SPS ids and PPS ids collide across the two maps.
-func avcDistinct(t *rapid.T, n int, max int, label string) []uint32 {
-	seen := map[uint32]bool{}
-	var out []uint32
-	for len(out) < n {
-		var v int
-		if avcChance(t, 3, 4, label+"-small") {
-			v = rapid.IntRange(0, 4).Draw(t, label)
-		} else {
-			v = int(avcDrawInt(t, 0, int64(max), label))
-		}
-		for seen[uint32(v)] {
-			v = (v + 1) % (max + 1)
-		}
-		seen[uint32(v)] = true
-		out = append(out, uint32(v))
-	}
-	return out
-}
-
 func TestAVCPPS(t *testing.T) {
 	harness.RunRapid(t, "pps", func(rt *rapid.T) {
 		var c avcPPSCase
-		nSPS := rapid.IntRange(1, 3).Draw(rt, "nSPS")
-		nPPS := rapid.IntRange(1, 3).Draw(rt, "nPPS")
-		spsIDs := avcDistinct(rt, nSPS, 31, "seq_parameter_set_id")
-		ppsIDs := avcDistinct(rt, nPPS, 255, "pic_parameter_set_id")
-		for i := 0; i < nSPS; i++ {
-			c.SPS = append(c.SPS, genAVCSPS(rt, avcSPSOpts{ID: spsIDs[i], Light: true}))
-		}
+		c.SPS, c.PPS = esgen.GenAVCPPSSet(rt)
 		var cl []string
-		for i := 0; i < nPPS; i++ {
-			ref := rapid.IntRange(0, nSPS-1).Draw(rt, "pps-refers-to")
-			c.PPS = append(c.PPS, genAVCPPS(rt, avcPPSOpts{ID: ppsIDs[i]}, &c.SPS[ref]))
-			cl = append(cl, avcPPSClasses(&c.PPS[i])...)
+		for i := range c.PPS {
+			cl = append(cl, esgen.AVCPPSClasses(&c.PPS[i])...)
 		}
 		raw, _ := json.Marshal(c)
-		harness.Rec.Case(avcNontrivial(cl, "avc-pps-one-slice-group"), raw, cl...)
+		harness.Rec.Case(esgen.AVCNontrivial(cl, "avc-pps-one-slice-group"), raw, cl...)
 		if harness.Rec.WantSample() {
 			harness.Rec.Sample(map[string]interface{}{"kind": "avcpps", "case": c})
 		}
